@@ -545,6 +545,29 @@ func runHistory(c *Ctx, p *pool, nops int, hostile bool, caseCtor string, script
 			if _, dup := out[b]; dup && !badFree {
 				c.vio("C04", "double-issue", fmt.Sprintf("%s on %s returned block %d (%v) which is still outstanding", o, p.desc, b, net.IP(r.ip)), rec(i))
 			}
+			// C04: the address ranges of the outstanding blocks are pairwise disjoint - a block returned
+			// with a mask shorter than the allocation length covers its neighbours too
+			if p.v6 && bitsz == 128 && !badFree {
+				span := func(blk uint64, l int) (uint64, uint64) {
+					if l >= p.page || p.page-l > 40 {
+						return blk, blk
+					}
+					w := uint64(1) << uint(p.page-l)
+					lo := blk &^ (w - 1)
+					return lo, lo + w - 1
+				}
+				nlo, nhi := span(b, plen)
+				for ob, ol := range out {
+					if ob == b {
+						continue
+					}
+					olo, ohi := span(ob, ol)
+					if nlo <= ohi && olo <= nhi {
+						c.vio("C04", "blocks-overlap", fmt.Sprintf("%s on %s returned %v/%d, which overlaps the outstanding block %d (/%d)", o, p.desc, net.IP(r.ip), plen, ob, ol), rec(i))
+						break
+					}
+				}
+			}
 			// C07: a hint naming a free block is honoured exactly
 			if hb, hok := p.blockOf(o.ip); hok && o.ip != nil {
 				if _, taken := out[hb]; !taken && hb != b {
@@ -740,6 +763,9 @@ func runAlloc(c *Ctx) {
 	}
 	if c.Prop == "C04" {
 		runAllocConcurrent(c, c.Scale(15000, 400000))
+	}
+	if c.Prop == "C06" {
+		runAllocConcurrent(c, c.Scale(4000, 100000)) // incl. simultaneous Free calls of one block
 	}
 	c.Extra["rule"] = "histories of 1..200 Allocate/Free ops on IPv4 ranges (sizes 1,2,3,63,64,65,127..129,1000, ending at 255.255.255.255) and IPv6 pools (/0../127 x order 0..10, v4-mapped); hints free/taken/outside/malformed, frees outstanding/sub-prefix/unallocated/below/above/malformed; non-trivial = distinct history with >=2 ops and >=1 successful allocation"
 }
